@@ -12,7 +12,20 @@ import time
 import traceback
 
 
+def die_with_parent():
+    """A shard never outlives the check that started it (the check may be killed from outside while shards are still running)."""
+    try:
+        import ctypes
+        import signal
+        ctypes.CDLL("libc.so.6", use_errno=True).prctl(1, signal.SIGKILL)      # PR_SET_PDEATHSIG
+        if os.getppid() == 1:
+            os._exit(3)
+    except Exception:
+        pass
+
+
 def main():
+    die_with_parent()
     root, repo, prop, action, tier, seed, out = sys.argv[1:8]
     seed = int(seed)
     sys.path[:0] = [repo, root, os.path.join(root, ".deps")]
